@@ -107,9 +107,12 @@ macro "pq_tac2" : tactic => `(tactic| (splits <;>
 theorem pq_wakeRt {s s' : State} (h : wakeRt s = some s') : PQ s s' := by
   unfold wakeRt at h; split at h <;> simp at h
   split at h <;> (simp at h; subst h; simp [PQ])
-theorem pq_wakeAgent {s s' : State} (h : wakeAgent s = some s') : PQ s s' := by
+theorem pq_wakeAgent {l : Bool} {s s' : State} (h : wakeAgent l s = some s') : PQ s s' := by
   unfold wakeAgent at h; split at h <;> simp at h
   split at h <;> (simp at h; subst h; simp [PQ])
+theorem pq_renderWoken {l : Bool} {s s' : State} (h : renderWoken l s = some s') : PQ s s' := by
+  unfold renderWoken at h; split at h <;> simp at h
+  subst h; simp [PQ]
 
 /-! ### the process table -/
 
@@ -552,7 +555,7 @@ theorem pinvO_killMove (s : State) (h : PInv s) : PInvO (killMove s) := by
   · rw [pinvO_some]; exact pinv_supKill _ _ (pinv_of_eq (s := s) rfl rfl h)
   · exact pinvO_none
 
-theorem pinvO_wakeMove (s : State) (h : PInv s) : PInvO (wakeMove s) := by
+theorem pinvO_wakeMove (l : Bool) (s : State) (h : PInv s) : PInvO (wakeMove l s) := by
   intro s' hs
   unfold wakeMove orElse' at hs
   split at hs
@@ -591,23 +594,27 @@ theorem pinvO_progress (v : Nat) (s : State) (h : PInv s) : PInvO (progress v s)
       exact (pinv_watchOne _ full zero h' hx).1
     · rename_i hq
       have hp := fun l => pinvO_platformMove l s h hq
-      have hw := pinvO_wakeMove s h
+      have hw := fun l => pinvO_wakeMove l s h
       have hk := pinvO_killMove s h
+      have hr : ∀ l, PInvO (renderWoken l s) := fun l s' hs => pinv_of_pq (pq_renderWoken hs) h
       dsimp only
       splits <;> first
-        | exact pinvO_orElse' hw (pinvO_orElse' (hp _) hk)
-        | exact pinvO_orElse' (hp _) (pinvO_orElse' hw hk)
-        | exact pinvO_orElse' (hp _) (pinvO_orElse' hk hw)
+        | exact pinvO_orElse' (pinvO_orElse' (hw _) (pinvO_orElse' (hp _) hk)) (hr _)
+        | exact pinvO_orElse' (pinvO_orElse' (hp _) (pinvO_orElse' (hw _) hk)) (hr _)
+        | exact pinvO_orElse' (pinvO_orElse' (hp _) (pinvO_orElse' hk (hw _))) (hr _)
+        | exact pinvO_orElse' (hr _) (pinvO_orElse' (hw _) (pinvO_orElse' (hp _) hk))
+        | exact pinvO_orElse' (hr _) (pinvO_orElse' (hp _) (pinvO_orElse' (hw _) hk))
+        | exact pinvO_orElse' (hr _) (pinvO_orElse' (hp _) (pinvO_orElse' hk (hw _)))
 
 theorem pinv_settle (v n : Nat) (s : State) (h : PInv s) : PInv (settle v n s) := by
-  induction n generalizing s with
+  induction n generalizing v s with
   | zero => exact h
   | succ n ih =>
     unfold settle
     split
     · exact h
     · rename_i s' hp
-      exact ih s' (pinvO_progress v s h s' hp)
+      exact ih _ s' (pinvO_progress v s h s' hp)
 
 theorem pinv_applyOp (s : State) (o : Op) (h : PInv s) : PInv (applyOp s o) := by
   cases o with
